@@ -3,7 +3,8 @@
 Copies a seeded property-breaking change into seeded/<ID>/<name>/, confirms it in a scratch worktree
 (applies; pinned suite passes; demo fails with it and passes without) and runs the quick check of <ID>
 against it (applied to /repo, undone straight afterwards). Writes meta.json with what was run and seen.
-With --recheck only the quick check is re-run and meta.json updated."""
+With --recheck only the quick check is re-run and meta.json updated; with only <ID> <name> the stored patch/demo are
+confirmed again against the current /repo HEAD (note kept)."""
 import json
 import os
 import shutil
@@ -26,13 +27,13 @@ def main():
     meta_p = os.path.join(d, "meta.json")
     meta = json.load(open(meta_p)) if os.path.exists(meta_p) else {}
     if not recheck:
-        patch, demo = args[2], args[3]
+        patch, demo = (args[2], args[3]) if len(args) > 3 else (os.path.join(d, "patch.diff"), os.path.join(d, "demo.py"))
         if os.path.abspath(patch) != os.path.join(d, "patch.diff"):
             shutil.copy(patch, os.path.join(d, "patch.diff"))
         if os.path.abspath(demo) != os.path.join(d, "demo.py"):
             shutil.copy(demo, os.path.join(d, "demo.py"))
-        note = ""
-        if len(args) > 4 and os.path.exists(args[4]):
+        note = meta.get("needs_to_manifest", "")
+        if len(args) > 4 and os.path.isfile(args[4]) and os.path.getsize(args[4]):
             note = open(args[4]).read().strip()
         r = sh(f"{HOME}/tools/confirm_seeded.sh {d}/patch.diff {d}/demo.py")
         out = r.stdout + r.stderr
